@@ -57,7 +57,7 @@ Qed.
 Definition seen (pv : Z) (item : option bytes) : option bytes := if 2 <? pv then item else Some (bytes_of item).
 
 Lemma read_marshal_item pv f x a rest : marshal_item pv f x = Ok a ->
-  exists item, f x = Ok item /\ read_elem pv (a ++ rest) = Ok (seen pv item, rest) /\ (2 <= length a)%nat.
+  exists item, f x = Ok item /\ read_elem pv (a ++ rest) = Ok (seen pv item, rest) /\ size_width pv <= blen a.
 Proof.
   unfold marshal_item. destruct (f x) as [item| | |]; try discriminate. cbn [rbind]. intros H. exists item. split; [reflexivity|].
   rewrite v3_test' in H.
@@ -72,9 +72,9 @@ Proof.
       * destruct (2 <? pv); cbn [Z.leb Z.compare bytes_of app]; [reflexivity|]. unfold blen.
         destruct (Z.ltb_spec (Z.of_nat (length rest)) 0); [lia|reflexivity].
     + destruct item as [b|]; [unfold blen; destruct (2 <? pv); lia | destruct (2 <? pv); lia].
-  - unfold write_size in Es. destruct (K.protoVersion2 <? pv).
-    + destruct (MaxInt32 <? _); [discriminate|]. injection Es as <-. rewrite app_length. cbn. lia.
-    + destruct (MaxUint16 <? _); [discriminate|]. injection Es as <-. rewrite app_length. cbn. lia.
+  - unfold write_size in Es. unfold size_width, blen. destruct (K.protoVersion2 <? pv).
+    + destruct (MaxInt32 <? _); [discriminate|]. injection Es as <-. rewrite app_length, Nat2Z.inj_add. change (Z.of_nat (length (enc_int ?x))) with 4. lia.
+    + destruct (MaxUint16 <? _); [discriminate|]. injection Es as <-. rewrite app_length, Nat2Z.inj_add. change (Z.of_nat (length (enc_short ?x))) with 2. lia.
 Qed.
 
 (* element round trip: Marshal succeeds and what the decoder sees decodes to hx *)
@@ -84,7 +84,7 @@ Definition elem_rt (pv : Z) (e : cqlty) (et : gty) (x hx : gval) : Prop :=
 Lemma list_loop_rt pv e et : forall l h, Forall2 (elem_rt pv e et) l h -> forall r rest fuel,
   marshal_items pv (marshal pv e) l = Ok r -> (length l <= fuel)%nat ->
   list_loop fuel pv (fun ed => ptr_wrap et ed (unmarshal_core pv e ed)) (Z.of_nat (length l)) (r ++ rest) = Ok h
-  /\ (length l <= length r)%nat.
+  /\ size_width pv * Z.of_nat (length l) <= blen r.
 Proof.
   induction 1 as [|x hx l h Hx Hl IH]; intros r rest fuel Hm Hf.
   - cbn in Hm. injection Hm as <-. split; [|cbn; lia]. destruct fuel; reflexivity.
@@ -94,7 +94,7 @@ Proof.
     destruct (read_marshal_item pv _ x a (r' ++ rest) Ea) as [item [Hi [Hr Hlen]]].
     destruct Hx as [item' [Hi' Hu]]. assert (item' = item) by congruence. subst item'.
     destruct (IH r' rest fuel eq_refl ltac:(lia)) as [IH1 IH2].
-    split; [|rewrite app_length; lia].
+    split; [|unfold blen in *; rewrite app_length; lia].
     cbn [list_loop]. replace (Z.of_nat (S (length l)) <=? 0) with false by (symmetry; apply Z.leb_gt; lia).
     rewrite <- app_assoc, Hr. cbn [rbind fst snd]. unfold unmarshal in Hu. rewrite Hu. cbn [rbind].
     replace (Z.of_nat (S (length l)) - 1) with (Z.of_nat (length l)) by lia. rewrite IH1. reflexivity.
@@ -110,19 +110,23 @@ Proof.
   destruct (marshal_items pv (marshal pv e) l) as [r| | |] eqn:Er; try discriminate. cbn [rbind] in Hm. injection Hm as <-.
   cbn [unmarshal_list]. rewrite (read_write_size pv _ hd r Eh) by (destruct (2 <? pv); lia). cbn [rbind fst snd].
   replace (Z.of_nat (length l) <? 0) with false by (symmetry; apply Z.ltb_ge; lia).
+  assert (Hw : 2 <= size_width pv) by (unfold size_width; destruct (K.protoVersion2 <? pv); lia).
+  pose proof (proj2 (list_loop_rt pv e et l h Hall r [] (length l) Er (le_n _))) as Hlen.
+  replace (blen r / size_width pv <? Z.of_nat (length l)) with false.
+  2: { symmetry. apply Z.ltb_ge. apply Z.div_le_lower_bound; lia. }
   destruct (list_loop_rt pv e et l h Hall r [] (S (length (hd ++ r))) Er) as [H1 H2].
-  - pose proof (proj2 (list_loop_rt pv e et l h Hall r [] (length l) Er (le_n _))) as Hlen. rewrite app_length. lia.
+  - rewrite app_length. unfold blen in Hlen. nia.
   - rewrite app_nil_r in H1. rewrite H1. reflexivity.
 Qed.
 
 (* ---- tuples written from and read into []interface{} ----------------------------------------------------------- *)
 (* component round trip: an untyped nil is written as -1 and read as nil data; anything else is written
-   with the length of its encoding (0 when Marshal returned nil: finding F-C12-4) and read as those bytes *)
+   as what Marshal returned for it (-1 for nil, else length and bytes) and read back as exactly that *)
 Definition comp_rt (pv : Z) (e : cqlty) (t : gty) (x hx : gval) : Prop :=
   match x with
   | GNil => unmarshal pv e None t = Ok hx
   | _ => exists data, marshal pv e x = Ok data /\ blen (bytes_of data) < 2 ^ 31
-                      /\ unmarshal pv e (Some (bytes_of data)) t = Ok hx
+                      /\ unmarshal pv e data t = Ok hx
   end.
 
 Fixpoint tuple_rt (pv : Z) (es : list cqlty) (l : list gval) (ts : list gty) (h : list gval) : Prop :=
@@ -164,10 +168,11 @@ Proof.
     assert (Hnext : exists p, tuple_next (a ++ b) = Ok (p, b) /\ unmarshal pv e p t = Ok hx).
     { destruct x; cbn [comp_rt] in Hc;
         try (destruct Hc as [data [Hd [Hs Hu]]]; rewrite Hd in Ea; cbn [rbind] in Ea; injection Ea as <-;
-             exists (Some (bytes_of data)); split; [|exact Hu];
-             pose proof (read_bytes_frame (blen (bytes_of data)) (bytes_of data) b ltac:(unfold blen in *; lia) ltac:(reflexivity)) as Hr;
-             replace (0 <=? blen (bytes_of data)) with true in Hr by (symmetry; apply Z.leb_le; unfold blen; lia);
-             cbv beta iota in Hr; first [exact Hr | rewrite <- app_assoc; exact Hr]).
+             exists data; split; [|exact Hu]; destruct data as [bs|]; cbn [append_bytes bytes_of] in *;
+             [ pose proof (read_bytes_frame (blen bs) bs b ltac:(unfold blen in *; lia) ltac:(reflexivity)) as Hr;
+               replace (0 <=? blen bs) with true in Hr by (symmetry; apply Z.leb_le; unfold blen; lia);
+               cbv beta iota in Hr; first [exact Hr | rewrite <- app_assoc; exact Hr]
+             | pose proof (read_bytes_frame (-1) [] b ltac:(pow_consts; lia) ltac:(lia)) as Hr; cbn [Z.leb Z.compare app] in Hr; exact Hr ]).
       injection Ea as <-. exists None. split; [|exact Hc].
       pose proof (read_bytes_frame (-1) [] b ltac:(pow_consts; lia) ltac:(lia)) as Hr. cbn [Z.leb Z.compare app] in Hr. exact Hr. }
     destruct Hnext as [p [Hn Hu]]. rewrite Hn. cbn [rbind fst snd]. unfold unmarshal in Hu. rewrite Hu. cbn [rbind]. rewrite IH. reflexivity.
